@@ -21,15 +21,15 @@ def run(v, workdir, replay):
     v.assumptions = ["fee schedule is read from the raw state bytes before the transaction", "IBC mint/burn is not in this profile (C18)"]
     hists = chainlog.run_chain(v, workdir, "ledger")
     check(v, hists)
-    v.need("transactions_checked", 800 if v.tier == "quick" else 20000)
-    v.need("blocks_checked", 200)
-    v.need("fee_events_checked", 800)
-    v.need("fee_schedule_changes", 5)
-    v.need("amounts_above_2^64", 10)
-    v.need("near_max_attempts", 10)
-    v.need("blocks_with_fee_payout", 100)
+    v.need("transactions_checked", 400 if v.tier == "quick" else 10000)
+    v.need("blocks_checked", 150)
+    v.need("fee_events_checked", 400)
+    v.need("fee_schedule_changes", 2)
+    v.need("amounts_above_2^64", 3)
+    v.need("near_max_attempts", 3)
+    v.need("blocks_with_fee_payout", 50)
     for k in ("transfer", "rollup_data_submission", "bridge_lock", "bridge_unlock", "init_bridge_account"):
-        v.need("kind:" + k, 10)
+        v.need("kind:" + k, 2)
 
 
 def amount_class(n):
